@@ -276,6 +276,17 @@ FreeIds == Ids \ live
 Isolated(n) == hp.nx[n] = 0 /\ hp.pv[n] = 0 /\ hp.pa[n] = 0
 \* the caller may link n (a single unlinked root) next to / below target
 CanAttach(n, target) == n \in live /\ target \in live /\ Isolated(n) /\ target \notin SubT(fo, n)
+\* ... or (after/before) next to nothing or itself, where the call does nothing
+CanBeside(p, n) == n \in live /\ Isolated(n) /\ (p = 0 \/ p = n \/ CanAttach(n, p))
+\* source and target list of a move belong to different trees
+CanMove(s, d) == s \in live /\ d \in live /\ TopList(fo, s) # TopList(fo, d)
+\* children are exchanged between nodes none of which is below the other
+CanSwap(a, b) == a \in live /\ b \in live /\ (a = b \/ (a \notin SubT(fo, b) /\ b \notin SubT(fo, a)))
+\* the nodes a clone call copies, in pre-order; the handle table must have room
+CloneSrc(a, n) == IF a = "clonenode" THEN <<n>>
+                  ELSE IF a = "clonetree" THEN PreT(fo, n)
+                  ELSE LET L == ListOf(fo, n) IN PreL(fo, From(L, IndexOf(L, n)))
+CanClone(a, n) == n \in live /\ Cardinality(FreeIds) >= Len(CloneSrc(a, n))
 
 ---------------------------------------------------------------------------
 (* actions: one per public call *)
@@ -329,14 +340,14 @@ NAdd(first, pos, n) ==
 \* mpt_gnode_after(position, node) / mpt_gnode_before(position, node);
 \* position may be null or the node itself (nothing happens)
 GAfter(p, n) ==
-  /\ n \in live /\ Isolated(n) /\ (p = 0 \/ p = n \/ CanAttach(n, p))
+  /\ CanBeside(p, n)
   /\ hp' = After(hp, p, n)
   /\ fo' = IF p = 0 \/ p = n THEN fo
            ELSE LET L == ListOf(fo, p) IN Attach(fo, p, IndexOf(L, p) + 1, n)
   /\ UNCHANGED <<live, name, val>>
   /\ Ans("after", [p |-> p, n |-> n], n, <<>>, n)
 GBefore(p, n) ==
-  /\ n \in live /\ Isolated(n) /\ (p = 0 \/ p = n \/ CanAttach(n, p))
+  /\ CanBeside(p, n)
   /\ hp' = Before(hp, p, n)
   /\ fo' = IF p = 0 \/ p = n THEN fo
            ELSE LET L == ListOf(fo, p) IN Attach(fo, p, IndexOf(L, p), n)
@@ -384,7 +395,7 @@ Clear(n) ==
 \* pre-order, roots = the top list of the copy.  Links leaving the cloned
 \* region are null in the copy.
 CloneOf(a, n, src, roots) ==
-  /\ Cardinality(FreeIds) >= Len(src)
+  /\ CanClone(a, n)
   /\ LET ids  == SubSeq(SortedSeq(FreeIds), 1, Len(src))
          M(x) == IF x = 0 \/ ~InSeq(x, src) THEN 0 ELSE ids[IndexOf(src, x)]
          S(i) == src[IndexOf(ids, i)]
@@ -404,14 +415,14 @@ CloneOf(a, n, src, roots) ==
                tops |-> fo.tops \cup {[j \in 1..Len(roots) |-> M(roots[j])]}]
      /\ Ans(a, [n |-> n], M(n), <<>>, M(n))
 
-CloneNode(n) == n \in live /\ CloneOf("clonenode", n, <<n>>, <<n>>)
-CloneTree(n) == n \in live /\ CloneOf("clonetree", n, PreT(fo, n), <<n>>)
-CloneList(n) == n \in live /\ LET L == ListOf(fo, n) r == From(L, IndexOf(L, n))
-                              IN CloneOf("clonelist", n, PreL(fo, r), r)
+CloneNode(n) == n \in live /\ CloneOf("clonenode", n, CloneSrc("clonenode", n), <<n>>)
+CloneTree(n) == n \in live /\ CloneOf("clonetree", n, CloneSrc("clonetree", n), <<n>>)
+CloneList(n) == n \in live /\ LET L == ListOf(fo, n)
+                              IN CloneOf("clonelist", n, CloneSrc("clonelist", n), From(L, IndexOf(L, n)))
 
 \* mpt_node_move(&from, dst); the two lists belong to different trees
 Move(s, d) ==
-  /\ s \in live /\ d \in live /\ TopList(fo, s) # TopList(fo, d)
+  /\ CanMove(s, d)
   /\ LET r    == MoveH(hp, s, d, d, s)
          L    == ListOf(fo, s)
          rest == From(L, IndexOf(L, s))
@@ -424,8 +435,7 @@ Move(s, d) ==
 
 \* mpt_gnode_swap(a, b): exchange the children
 Swap(a, b) ==
-  /\ a \in live /\ b \in live
-  /\ a = b \/ (a \notin SubT(fo, b) /\ b \notin SubT(fo, a))
+  /\ CanSwap(a, b)
   /\ LET ca == Range(Fwd(hp, hp.ch[a])) cb == Range(Fwd(hp, hp.ch[b])) IN
      hp' = [hp EXCEPT !.ch = [@ EXCEPT ![b] = hp.ch[a], ![a] = hp.ch[b]],
                       !.pa = [n \in Ids |-> IF n \in cb THEN a ELSE IF n \in ca THEN b ELSE hp.pa[n]]]
@@ -594,5 +604,5 @@ ReleaseOnceStep ==
       /\ (obs'.a = "destroy" /\ obs'.exp.ret = 0) =>
             live \ live' = SubT(fo, obs'.arg.n)
       /\ obs'.a = "clear" => live \ live' = SubT(fo, obs'.arg.n) \ {obs'.arg.n}
-ReleaseOnce == [][ReleaseOnceStep]_vars
+ReleaseOnce == [][obs'.a = "init" \/ ReleaseOnceStep]_vars     \* (init = a new execution)
 =============================================================================
